@@ -357,7 +357,7 @@ EMPTIABLE = {"string", "choice", "file", "group", "object", "multiobject", "data
 
 def switch_strategy():
     return st.fixed_dictionaries({
-        "opt": st.sampled_from([None, None, "enabled", "disabled", "disabled"]),
+        "opt": st.sampled_from([None, None, "enabled", "enabled", "disabled", "disabled"]),
         "grp": st.sampled_from([None, None, None, 0, 0, 1]),
         "gopt": st.sampled_from([None, None, True, True, False]),
         "dep": st.one_of(st.none(), st.none(), st.integers(0, 20)),
@@ -415,7 +415,8 @@ def form_strategy(kinds=None):
         "range": of("range", lo=st.one_of(float_values(), int_values()), hi=st.one_of(float_values(), int_values()),
                     complement=st.booleans()),
     }
-    return st.one_of(*[table[k] for k in kinds])
+    weighted = list(kinds) + [k for k in ("object", "data", "group", "datavalue", "multiobject") if k in kinds]
+    return st.one_of(*[table[k] for k in weighted])
 
 
 def toplevel_strategy():
@@ -536,11 +537,12 @@ def materialize(program: dict, cat: dict, ws, geoh5_value) -> Built:
     built.meta["run_command_boolean"] = {"kind": "bool", "expected": snap(uj["run_command_boolean"]["value"]),
                                          "lookalike": False, "unspecified": False, "vclass": "header",
                                          "entity": False}
-    built.meta["workspace"] = {"kind": "plain", "lookalike": uj["workspace"] is not None, "unspecified": False,
+    # "workspace paths re-opened as workspaces": expected by resolved path (statement, not a look-alike)
+    built.meta["workspace"] = {"kind": "plain", "lookalike": False, "unspecified": False,
                                "vclass": "workspace-path" if uj["workspace"] else "header", "entity": False,
                                "expected": ["workspace", os.path.realpath(cat["path"])] if uj["workspace"]
                                else ["none"]}
-    built.meta["geoh5"] = {"kind": "plain", "lookalike": True, "unspecified": False, "vclass": "workspace-path",
+    built.meta["geoh5"] = {"kind": "plain", "lookalike": False, "unspecified": False, "vclass": "workspace-path",
                            "entity": False, "expected": ["workspace", os.path.realpath(cat["path"])]}
     for i, extra in enumerate(top.get("extras") or []):
         name = f"extra{i}"
@@ -887,7 +889,6 @@ def run_roundtrip(program: dict, res, pid: str = "C14"):
              "kinds": set()}
     ws = None
     opened = None
-    extra_open = []
     try:
         ws, cat = build_workspace(program.get("ws") or DEFAULT_WS)
         ws.close()
@@ -1020,7 +1021,7 @@ def run_roundtrip(program: dict, res, pid: str = "C14"):
                              f"{before}")
         return stats
     finally:
-        env.close_quietly(opened, ws, *extra_open)
+        env.close_quietly(opened, ws)
 
 
 def tagged(built, name, sig: str) -> str:
@@ -1501,9 +1502,6 @@ def run_pair(program, res, pid="C15"):
                 uj["x"]["property"] = value if not hasattr(value, "uid") else value.uid
         elif api == "construct":
             uj["x"]["value"] = value
-        if api == "construct" and hasattr(value, "uid") and vcase == "foreign":
-            unspecified = unspecified  # entities may be stored in a ui.json dictionary: verdict applies
-
         known = None
         # KNOWN FINDING guards
         if kind == "datagroup" and expect == "accept" and (
